@@ -10,7 +10,7 @@ from __future__ import annotations
 import itertools
 import math
 
-from frequenz.channels import Broadcast
+from frequenz.channels import Broadcast, Receiver, ReceiverError
 from frequenz.quantities import Quantity
 
 from frequenz.sdk.timeseries import Sample
@@ -64,7 +64,28 @@ def S(t, v):
     return Sample(F.ts(t), None if v is None else Quantity(float(v)))
 
 
-def run_case(prim, fall, order, close_at, lag=0):
+class FlakyReceiver(Receiver):
+    """A receiver that raises a (non-terminal) ReceiverError instead of delivering its ``fail_at``-th message and
+    works normally afterwards."""
+
+    def __init__(self, inner, fail_at):
+        self._inner, self._fail_at, self._n = inner, fail_at, 0
+
+    async def ready(self):
+        return await self._inner.ready()
+
+    def consume(self):
+        msg = self._inner.consume()
+        n, self._n = self._n, self._n + 1
+        if n == self._fail_at:
+            raise ReceiverError("injected transient error", self)
+        return msg
+
+    def close(self):
+        self._inner.close()
+
+
+def run_case(prim, fall, order, close_at, lag=0, err_at=None):
     """prim/fall: per-timestamp values ('v' valid, None, 'nan'); order: 'pf' or 'fp' per run; lag: the formula's own
     inputs (primary and the other term) are delivered `lag` steps behind the live fallback stream."""
     L = len(prim)
@@ -73,7 +94,8 @@ def run_case(prim, fall, order, close_at, lag=0):
         pc, fc, oc = Broadcast(name="p"), Broadcast(name="f"), Broadcast(name="o")
         fb = HarnessFallback(fc)
         b = FormulaBuilder("with-fallback", Quantity)
-        b.push_metric("p", pc.new_receiver(), nones_are_zeros=False, fallback=fb)
+        prx = pc.new_receiver() if err_at is None else FlakyReceiver(pc.new_receiver(), err_at)
+        b.push_metric("p", prx, nones_are_zeros=False, fallback=fb)
         b.push_oper("+")
         b.push_metric("o", oc.new_receiver(), nones_are_zeros=False)
         eng = b.build()
@@ -171,9 +193,17 @@ def oracle(prim, fall, order, close_at, out, fb_seen_from, lag=0):
     return v
 
 
-def check_case(prim, fall, order, close_at, lag=0):
-    out, fb_from, stalled, unhandled = run_case(prim, fall, order, close_at, lag)
+def check_case(prim, fall, order, close_at, lag=0, err_at=None):
+    out, fb_from, stalled, unhandled = run_case(prim, fall, order, close_at, lag, err_at)
+    if err_at is not None:
+        # the message of that timestamp is lost to a transient error: like a missing primary value at that timestamp
+        prim = [None if t == err_at else x for t, x in enumerate(prim)]
     v = oracle(prim, fall, order, close_at, out, fb_from, lag)
+    if err_at is not None:
+        # the error consumed one primary message, so the primary stream is one message short and the evaluator drops samples
+        # until its inputs line up again: outputs may be absent for a few timestamps (the property does not say what a stream
+        # looks like after a non-terminal error) - but every value that IS emitted must be the primary's if valid, else the fallback's
+        v = [x for x in v if not x[1].get("missing_output")]
     if stalled:
         v.append(("execution_terminates", {}))
     return out, v
@@ -360,8 +390,11 @@ def shard(args) -> Acc:
                 cases = [(c, 0) for c in closes]
                 if "nan" not in prim:
                     cases += [(None, 1), (None, 2)]  # the formula's inputs lag behind the live fallback stream
-                for close_at, lag in cases:
-                    out, viol = check_case(prim, list(fall), order, close_at, lag)
+                cases = [(c, l, None) for c, l in cases]
+                if "nan" not in prim and order == "pf":
+                    cases += [(None, 0, t) for t in range(1, L) if prim[t] == "v"]  # a transient receiver error at t
+                for close_at, lag, err_at in cases:
+                    out, viol = check_case(prim, list(fall), order, close_at, lag, err_at)
                     acc.evaluations += 1
                     acc.traces += 1
                     acc.transitions += 3 * L
@@ -370,11 +403,12 @@ def shard(args) -> Acc:
                     if any(x != "v" for x in prim) or close_at is not None:
                         acc.nontrivial += 1
                     acc.outcome(f"outputs={len(out)} close={'yes' if close_at is not None else 'no'}")
-                    acc.state(repr((prim, fall, order, close_at, lag)))
+                    acc.state(repr((prim, fall, order, close_at, lag, err_at)))
                     if acc.evaluations % 1500 == 1:
                         acc.sample({"primary": prim, "fallback": list(fall), "order": order, "primary_closed_at": close_at, "outputs": out})
                     for clause, detail in viol:
-                        acc.violation(Violation(clause, {"primary": prim, "fallback": list(fall), "order": order, "close_at": close_at, "lag": lag},
+                        acc.violation(Violation(clause, {"primary": prim, "fallback": list(fall), "order": order, "close_at": close_at, "lag": lag,
+                                                         "err_at": err_at},
                                                 detail, classes(prim, fall, order, close_at)))
     return acc
 
@@ -386,7 +420,7 @@ def run(tier: str, seed: int, workers: int):
     meta = {
         "rule": "formula p + o, p with a lazily started fallback; L = 5 (quick) / 6 timestamps; primary per timestamp valid / None / NaN "
         "(all 3^L sequences), fallback per timestamp valid / None (all 2^L), fallback sample sent before or after the primary's, "
-        "primary stream closed at every position, and the formula's own inputs delivered 0, 1 or 2 steps behind the live fallback stream; non-trivial = some primary sample invalid or the stream closed; plus the generated "
+        "primary stream closed at every position, a transient receiver error in place of one valid primary message (only the emitted values are judged then), and the formula's own inputs delivered 0, 1 or 2 steps behind the live fallback stream; non-trivial = some primary sample invalid or the stream closed; plus the generated "
         "PV formula of a PV meter with two inverters (real FallbackFormulaMetricFetcher and registry): all 2^L meter sequences x "
         "inverter-missing pattern x order x (close position | meter samples 1 or 2 steps behind the inverter streams), and the generated "
         "grid reactive-power formula of a grid meter in front of two inverters (streams of other metrics carry different values) and the "
@@ -408,5 +442,5 @@ def replay(case: dict):
         out, _, _ = run_generated(case["primary"], case["inverter_b"], case["order"], case["close_at"], case.get("lag", 0),
                                   case.get("kind", "pv"))
         return oracle_generated(case["primary"], case["inverter_b"], case["order"], case["close_at"], out, case.get("lag", 0))
-    _, v = check_case(case["primary"], case["fallback"], case["order"], case["close_at"], case.get("lag", 0))
+    _, v = check_case(case["primary"], case["fallback"], case["order"], case["close_at"], case.get("lag", 0), case.get("err_at"))
     return v
